@@ -89,6 +89,9 @@ pub enum Forgery {
     ResignedGenuine(Comp, Edit),
     /// SREP.ROOT cut to this many bytes and re-signed by the genuine online key
     RootLen(u8),
+    /// a genuinely signed delegation whose window is EMPTY (MINT > MAXT) with the midpoint above MINT (0) or below
+    /// MAXT (1): no midpoint lies in an empty window
+    EmptyWindow(u8),
     /// the certificate's signature replaced by the encoding of (neutral element, 0) — which verifies under the neutral
     /// element as "public key" for every message
     NeutralCertSig,
@@ -328,6 +331,18 @@ fn forge(plan: &Plan, i: usize, requests: &[Vec<u8>]) -> Vec<u8> {
             let midp = plan.midp.max(1);
             honest_parts(&r, pr, request, plan.batch, plan.index, midp).assemble()
         }
+        Forgery::EmptyWindow(k) => {
+            let mut r = Responder::new(&LT_SEED, &ONLINE_SEED);
+            let midp = plan.midp.clamp(1_000, u64::MAX - 1_000);
+            if k % 2 == 0 {
+                r.mint = midp - 5;
+                r.maxt = midp - 10;
+            } else {
+                r.mint = midp + 10;
+                r.maxt = midp + 5;
+            }
+            honest_parts(&r, pr, request, plan.batch, plan.index, midp).assemble()
+        }
         Forgery::CrossContextCert => {
             parts.resign_dele(&good.long_term, pr.other().dele_ctx());
             parts.assemble()
@@ -497,6 +512,7 @@ fn forgery_kind(f: &Forgery) -> String {
         Forgery::WholeOtherKey => "whole-other-key".into(),
         Forgery::WindowBelow => "window-below".into(),
         Forgery::WindowAbove => "window-above".into(),
+        Forgery::EmptyWindow(k) => format!("empty-window-{}", if k % 2 == 0 { "midpoint-above-mint" } else { "midpoint-below-maxt" }),
         Forgery::CrossContextCert => "cross-context-cert".into(),
         Forgery::CrossProtocolShape(k) => format!("cross-protocol-shape{}", k % 3),
         Forgery::CrossRequest(_) => "cross-request".into(),
@@ -522,7 +538,7 @@ fn check_forgery(ctx: &mut Ctx, plan: &Plan) -> Res {
     // what is pinned with -k: the genuine key, or bytes that are no public key (then nothing is authentic)
     let pk = if plan.bad_key == 0 { genuine.clone() } else { bad_key_bytes(plan.bad_key, &genuine) };
     let zone = plan.zone as usize % (C01_ZONES.len() + 1);
-    let args = ClientArgs { ietf: plan.ietf, key: Some(key_string(&pk, plan.key_b64)), nreq: plan.nreq.clamp(1, 64), mode: plan.mode % 3, local_tz: if zone == 0 { None } else { Some(C01_ZONES[zone - 1].to_string()) }, opts: plan.opts & 7 };
+    let args = ClientArgs { ietf: plan.ietf, key: Some(key_string(&pk, plan.key_b64)), nreq: plan.nreq.clamp(1, 64), mode: plan.mode % 3, local_tz: if zone == 0 { None } else { Some(C01_ZONES[zone - 1].to_string()) }, opts: plan.opts & 7, via_alias: false };
     let delivered: RefCell<Vec<Vec<u8>>> = RefCell::new(vec![]);
     let run = match run_client(&args, |reqs| {
         let out: Vec<Vec<u8>> = (0..reqs.len()).map(|i| forge(plan, i, reqs)).collect();
@@ -667,6 +683,7 @@ fn forgery_strategy() -> impl Strategy<Value = Forgery> {
         1 => Just(Forgery::WholeOtherKey),
         1 => Just(Forgery::WindowBelow),
         1 => Just(Forgery::WindowAbove),
+        1 => (0u8..2).prop_map(Forgery::EmptyWindow),
         1 => Just(Forgery::CrossContextCert),
         2 => any::<u8>().prop_map(Forgery::CrossProtocolShape),
         2 => any::<u8>().prop_map(Forgery::CrossRequest),
@@ -750,6 +767,8 @@ fn fixed_table() -> Vec<Plan> {
                 Forgery::ResignedGenuine(Comp::Root, Edit::Zero),
                 Forgery::OtherProtocolSignatures,
                 Forgery::NeutralCertSig,
+                Forgery::EmptyWindow(0),
+                Forgery::EmptyWindow(1),
                 Forgery::RootLen(0),
                 Forgery::RootLen(4),
                 Forgery::RootLen(28),
@@ -893,11 +912,34 @@ pub struct HonestPlan {
     /// bit set of further client options (clientlab::ClientArgs::opts)
     #[serde(default)]
     pub opts: u8,
+    /// reference peer: the delegation window. 0 = unbounded like this project's server; 1 = one hour either side of the
+    /// midpoint; 2 = exactly [midpoint, midpoint]; 3 = [0, midpoint]. (The midpoints generated lie anywhere between
+    /// 1970 and 9999: the client's own clock is almost never inside a bounded window, nor should that matter.)
+    #[serde(default)]
+    pub window: u8,
+    /// reference peer: the server answers from another local address than the one the client asked
+    #[serde(default)]
+    pub via_alias: bool,
 }
 
 /// an honest reference reply for request number `k` of the run
-fn honest_reply(p: &HonestPlan, resp: &Responder, pr: Proto, r: &[u8], batch: u8, index: u8, k: usize) -> Vec<u8> {
+fn honest_reply(p: &HonestPlan, online_seed: &[u8], pr: Proto, r: &[u8], batch: u8, index: u8, k: usize) -> Vec<u8> {
     let midp = (p.midp as i128 + k as i128 * p.midp_step as i128).clamp(0, if p.ietf { 253_402_300_799 } else { 253_402_300_799_999_999 }) as u64;
+    let unit: u64 = if p.ietf { 1 } else { 1_000_000 };
+    let mut responder = Responder::new(&LT_SEED, online_seed);
+    match p.window % 4 {
+        0 => {}
+        1 => {
+            responder.mint = midp.saturating_sub(3_600 * unit);
+            responder.maxt = midp.saturating_add(3_600 * unit);
+        }
+        2 => {
+            responder.mint = midp;
+            responder.maxt = midp;
+        }
+        _ => responder.maxt = midp,
+    }
+    let resp = &responder;
     let mut parts = honest_parts(resp, pr, r, batch, index, midp);
     if p.ietf && p.vers_variant % 4 != 0 {
         let list: Vec<u32> = match p.vers_variant % 4 {
@@ -941,7 +983,7 @@ fn check_honest(ctx: &mut Ctx, p: &HonestPlan) -> Res {
     // local-time output is only compared through the epoch-seconds format (mode 3's civil date would need tzdata)
     let zone = if p.mode % 4 == 3 { 0 } else { p.zone as usize % (LOCAL_ZONES.len() + 1) };
     let local_tz = if zone == 0 { None } else { Some(LOCAL_ZONES[zone - 1].to_string()) };
-    let args = ClientArgs { ietf: p.ietf, key: key.clone(), nreq, mode: p.mode % 4, local_tz: local_tz.clone(), opts: p.opts & 7 };
+    let args = ClientArgs { ietf: p.ietf, key: key.clone(), nreq, mode: p.mode % 4, local_tz: local_tz.clone(), opts: p.opts & 7, via_alias: p.via_alias && !p.real_server };
     let delivered: RefCell<Vec<Vec<u8>>> = RefCell::new(vec![]);
     let lab_err: RefCell<Option<String>> = RefCell::new(None);
     let run = run_client(&args, |reqs| {
@@ -989,9 +1031,9 @@ fn check_honest(ctx: &mut Ctx, p: &HonestPlan) -> Res {
                     if p.rotate_online {
                         let mut seed = ONLINE_SEED;
                         seed[0] ^= out.len() as u8 + 1;
-                        honest_reply(p, &Responder::new(&LT_SEED, &seed), pr, r, batch as u8, index as u8, out.len())
+                        honest_reply(p, &seed, pr, r, batch as u8, index as u8, out.len())
                     } else {
-                        honest_reply(p, &ref_resp, pr, r, batch as u8, index as u8, out.len())
+                        honest_reply(p, &ONLINE_SEED, pr, r, batch as u8, index as u8, out.len())
                     }
                 }
                 Some(lab) => {
@@ -1126,7 +1168,7 @@ fn check_honest(ctx: &mut Ctx, p: &HonestPlan) -> Res {
 
 fn honest_strategy() -> impl Strategy<Value = HonestPlan> {
     (any::<bool>(), prop_oneof![3 => 0u8..3, 1 => 3u8..5], prop_oneof![6 => Just(1u8), 2 => 2u8..=4, 1 => 5u8..=16, 1 => 17u8..=64], 0u8..4, batch_strategy(), prop::bool::weighted(0.4), prop_oneof![2 => Just(0u8), 1 => 1u8..=7]).prop_flat_map(|(ietf, key, nreq, mode, (batch, index), real_server, zone)| {
-        (midp_strategy(ietf), any::<bool>(), any::<bool>(), prop_oneof![2 => Just(0u8), 1 => 1u8..4], prop_oneof![2 => Just(0i8), 1 => -3i8..=3], prop_oneof![3 => Just(0u8), 1 => 0u8..8]).prop_map(move |(midp, same_batch, rotate, vers_variant, midp_step, opts)| HonestPlan { ietf, key, zone, nreq, mode, batch, index, midp, real_server, same_batch: same_batch && !rotate, rotate_online: rotate && !real_server, vers_variant, midp_step, opts })
+        (midp_strategy(ietf), any::<bool>(), any::<bool>(), prop_oneof![2 => Just(0u8), 1 => 1u8..4], prop_oneof![2 => Just(0i8), 1 => -3i8..=3], prop_oneof![3 => Just(0u8), 1 => 0u8..8], prop_oneof![2 => Just(0u8), 1 => 1u8..4], prop::bool::weighted(0.2)).prop_map(move |(midp, same_batch, rotate, vers_variant, midp_step, opts, window, via_alias)| HonestPlan { ietf, key, zone, nreq, mode, batch, index, midp, real_server, same_batch: same_batch && !rotate, rotate_online: rotate && !real_server, vers_variant, midp_step, opts, window, via_alias })
     })
 }
 
@@ -1151,7 +1193,7 @@ pub fn run_c03(ctx: &mut Ctx) -> Vec<Violation> {
                         if t == Tier::Thorough && key == 2 && b > 8 {
                             continue;
                         }
-                        grid.push(HonestPlan { ietf, key, zone: 0, nreq: 1, mode: (b + i) % 4, batch: b, index: i, midp: if ietf { 1_750_000_000 } else { 1_750_000_000_999_999 }, real_server, same_batch: false, rotate_online: false, vers_variant: 0, midp_step: 0, opts: 0 });
+                        grid.push(HonestPlan { ietf, key, zone: 0, nreq: 1, mode: (b + i) % 4, batch: b, index: i, midp: if ietf { 1_750_000_000 } else { 1_750_000_000_999_999 }, real_server, same_batch: false, rotate_online: false, vers_variant: 0, midp_step: 0, opts: 0, window: 0, via_alias: false });
                     }
                 }
             }
@@ -1163,7 +1205,7 @@ pub fn run_c03(ctx: &mut Ctx) -> Vec<Violation> {
         for key in 0..3u8 {
             for real_server in [false, true] {
                 for (nreq, batch, index) in [(2u8, 2u8, 0u8), (3, 8, 2), (5, 5, 0), (9, 16, 4), (16, 64, 40)] {
-                    grid.push(HonestPlan { ietf, key, zone: 0, nreq, mode: nreq % 3, batch, index, midp: if ietf { 1_760_000_000 } else { 1_760_000_000_000_001 }, real_server, same_batch: true, rotate_online: false, vers_variant: 0, midp_step: 0, opts: 0 });
+                    grid.push(HonestPlan { ietf, key, zone: 0, nreq, mode: nreq % 3, batch, index, midp: if ietf { 1_760_000_000 } else { 1_760_000_000_000_001 }, real_server, same_batch: true, rotate_online: false, vers_variant: 0, midp_step: 0, opts: 0, window: 0, via_alias: false });
                 }
             }
         }
@@ -1172,29 +1214,29 @@ pub fn run_c03(ctx: &mut Ctx) -> Vec<Violation> {
     // client's extra options
     for ietf in [false, true] {
         for (vers_variant, midp_step, opts) in [(1u8, 0i8, 0u8), (2, 0, 0), (3, 0, 1), (0, -1, 0), (0, -3, 2), (2, 1, 4), (0, 0, 7)] {
-            grid.push(HonestPlan { ietf, key: 1, zone: 0, nreq: 3, mode: vers_variant % 3, batch: 2, index: 1, midp: if ietf { 1_766_000_000 } else { 1_766_000_000_000_002 }, real_server: false, same_batch: false, rotate_online: false, vers_variant, midp_step, opts });
+            grid.push(HonestPlan { ietf, key: 1, zone: 0, nreq: 3, mode: vers_variant % 3, batch: 2, index: 1, midp: if ietf { 1_766_000_000 } else { 1_766_000_000_000_002 }, real_server: false, same_batch: false, rotate_online: false, vers_variant, midp_step, opts, window: (vers_variant + opts) % 4, via_alias: opts % 2 == 1 });
         }
     }
     // every reply of a run signed by a different (certified) online key
     for ietf in [false, true] {
         for key in 0..3u8 {
-            grid.push(HonestPlan { ietf, key, zone: 0, nreq: 4, mode: key, batch: 3, index: 1, midp: if ietf { 1_765_000_000 } else { 1_765_000_000_000_000 }, real_server: false, same_batch: false, rotate_online: true, vers_variant: 0, midp_step: 0, opts: 0 });
+            grid.push(HonestPlan { ietf, key, zone: 0, nreq: 4, mode: key, batch: 3, index: 1, midp: if ietf { 1_765_000_000 } else { 1_765_000_000_000_000 }, real_server: false, same_batch: false, rotate_online: true, vers_variant: 0, midp_step: 0, opts: 0, window: 0, via_alias: false });
         }
     }
     // key spellings and local-time output
     for ietf in [false, true] {
         for key in [3u8, 4] {
-            grid.push(HonestPlan { ietf, key, zone: 0, nreq: 1, mode: 1, batch: 3, index: 1, midp: if ietf { 1_770_000_000 } else { 1_770_000_000_500_000 }, real_server: false, same_batch: false, rotate_online: false, vers_variant: 0, midp_step: 0, opts: 0 });
+            grid.push(HonestPlan { ietf, key, zone: 0, nreq: 1, mode: 1, batch: 3, index: 1, midp: if ietf { 1_770_000_000 } else { 1_770_000_000_500_000 }, real_server: false, same_batch: false, rotate_online: false, vers_variant: 0, midp_step: 0, opts: 0, window: 0, via_alias: false });
         }
         // honest replies whose midpoint falls in an hour the local zone repeats or skips (clocks back / forward)
         for (zone, instants) in [(6u8, [1_762_063_200u64, 1_762_063_199, 1_741_503_600]), (7u8, [1_761_440_400, 1_761_440_399, 1_743_296_400])] {
             for (k, s) in instants.iter().enumerate() {
-                grid.push(HonestPlan { ietf, key: 1, zone, nreq: 1, mode: k as u8 % 3, batch: 2, index: 0, midp: if ietf { *s } else { *s * 1_000_000 + 1 }, real_server: false, same_batch: false, rotate_online: false, vers_variant: 0, midp_step: 0, opts: 0 });
+                grid.push(HonestPlan { ietf, key: 1, zone, nreq: 1, mode: k as u8 % 3, batch: 2, index: 0, midp: if ietf { *s } else { *s * 1_000_000 + 1 }, real_server: false, same_batch: false, rotate_online: false, vers_variant: 0, midp_step: 0, opts: 0, window: 0, via_alias: false });
             }
         }
         for zone in 1..=5u8 {
             for midp_s in [1_770_000_000u64, 1_751_759_999, 1_762_061_400, 86_399, 4_102_444_799] {
-                grid.push(HonestPlan { ietf, key: 1, zone, nreq: 1, mode: zone % 3, batch: 2, index: 1, midp: if ietf { midp_s } else { midp_s * 1_000_000 + 7 }, real_server: false, same_batch: false, rotate_online: false, vers_variant: 0, midp_step: 0, opts: 0 });
+                grid.push(HonestPlan { ietf, key: 1, zone, nreq: 1, mode: zone % 3, batch: 2, index: 1, midp: if ietf { midp_s } else { midp_s * 1_000_000 + 7 }, real_server: false, same_batch: false, rotate_online: false, vers_variant: 0, midp_step: 0, opts: 0, window: 0, via_alias: false });
             }
         }
     }
